@@ -79,6 +79,10 @@ CHECKS = {
             'Lean 4 invariant proofs over one labelled transition system of the MetaRunner/ServiceRunner protocol (induction over arbitrary event sequences: every number of payloads, every interleaving the guards admit) + correspondence by replaying the event logs of gated scenarios run against the real runtime on the model (subset-construction trace acceptor) + outcome oracle',
             'guard_mutex, reject_frame, guard_released, restart, shutdown_enabled, shutdown_returns are theorems over the runtime LTS; tied to the code by histories over several ServiceRunner instances (accept, concurrent accept, shutdown from outside or from a thread payload, SIGINT, failing payload, accept again).',
             'Partial: the semantics of asyncio, trio and threading enters the LTS as the enabling conditions of its events (assumed, DESIGN §7.1); real thread interleavings inside the frameworks and wall-clock bounds are sampled by the scenario engine, not proved. Trusted: Lean kernel + standard axioms; the LTS Model/Runtime/LTS.lean (tied by trace acceptance); the scenario engine and its mapping of log entries to model events.'),
+    "C13": ("§7.9",
+            "Lean 4 corollaries of the runtime-LTS theorems for the daemon's instantiation (loader = queued asyncio payload) + totality of the loader dispatch + correspondence with real `python -m cobald.daemon` child processes whose event files are replayed on the LTS + outcome oracle",
+            "dispatch_total, start_reachable, loader_in_loop, services_started_once, failure_nonzero, sigint_exit0, failure_progress are theorems (corollaries of C01/C03 over the same LTS); tied to core/main.py, core/config.py, config/python.py, config/yaml.py by generated YAML and Python configurations run as real daemon processes: exit status, error on the log, and the event file (constructed inside the running loop, run started once, heartbeats until SIGINT, cancelled) are judged by the oracle and replayed on the model.",
+            "Partial: interpreter start-up / shutdown, signal delivery and garbage collection are outside the model; framework semantics are the LTS's enabling conditions (assumed). Trusted: Lean kernel + standard axioms; the LTS; the instrumented module and the mapping of its events to model events."),
 }
 
 PENDING_REASON = "check not built yet in this session (planned: Lean model + proof + correspondence, see DESIGN.md work order); not claimed until its check exists"
